@@ -82,6 +82,36 @@ def int_summaries(mod, viol):
     return S
 
 
+class TimeBudget(BaseException):
+    """raised by time_limit; derives from BaseException so that the per-cell `except Undecided` handlers do not swallow it"""
+
+
+class time_limit:
+    """wall-clock budget for one kernel-mode analysis (main thread of the process only): running out is ANALYSIS-INCOMPLETE
+    (Undecided), never a verdict.  A check must not run for an unbounded time on a changed tree."""
+
+    def __init__(s, seconds):
+        s.seconds = seconds
+        s.old = None
+
+    def __enter__(s):
+        import signal, threading
+        s.active = threading.current_thread() is threading.main_thread() and hasattr(signal, 'setitimer')
+        if s.active:
+            def handler(signum, frame):
+                raise TimeBudget('time budget of %d s for this kernel-mode analysis exhausted' % s.seconds)
+            s.old = signal.signal(signal.SIGALRM, handler)
+            signal.setitimer(signal.ITIMER_REAL, s.seconds)
+        return s
+
+    def __exit__(s, *a):
+        import signal
+        if s.active:
+            signal.setitimer(signal.ITIMER_REAL, 0)
+            signal.signal(signal.SIGALRM, s.old)
+        return False
+
+
 class Outcome:
     def __init__(s):
         s.cells = 0
@@ -515,7 +545,7 @@ def field_summaries(mod, viol, W_only=None):
     return S
 
 
-def prove_routine_all_lanes(mod, name, arg_cells, out_cells, ret_spec, subst_atoms, seed=0, budget=20000, W=None):
+def prove_routine_all_lanes(mod, name, arg_cells, out_cells, ret_spec, subst_atoms, seed=0, budget=20000, W=None, extra_summaries=None, focus=None):
     """kernel-mode analysis of a routine that combines lanes (dot products, horizontal sums) with the lane kernels and the
     scalar primitives replaced by their contracts.  arg_cells: per pointer argument a list of (byte offset, symbol, typestate);
     out_cells: [(arg index, byte offset, spec Poly over symbol polys)], ret_spec: Poly or None.  Returns an Outcome."""
@@ -525,7 +555,11 @@ def prove_routine_all_lanes(mod, name, arg_cells, out_cells, ret_spec, subst_ato
     S = {}
     S.update(field_summaries(mod, viol, W))
     S.update(scalar_summaries(mod))
+    if extra_summaries:
+        S.update(extra_summaries(viol) if callable(extra_summaries) else extra_summaries)
+    S.pop(name, None)       # the routine under analysis is interpreted
     K = KInterp(mod, lane=0, summaries=S, globals_=gc, budget=budget, all_lanes=True)
+    K.focus = focus
     c = Case()
     st = St(c, {}, {})
     ptrs = [KPtr('arg%d' % i, 0) for i in range(len(arg_cells))]
